@@ -31,7 +31,8 @@ L1 == <<
     "```{u+000c}", "~~~ &#x3000;", "[a]: /u \"t&#10;u\"", "> [a]: /u \"x&NewLine;y\"", "- [a]: /u 'p\\\nq'", "```{u+00a0}x",
     "  - > q", "   > - r", "  1. > s", "    > t",
     "||a|", "|a||",
-    ">  ```", "#######", "   >  ~~~", "###### ", "#\t#"
+    ">  ```", "#######", "   >  ~~~", "###### ", "#\t#",
+    "[a]: javascript:x", "[A]: data:text/html,y 't'"
 >>
 L1Core == {1, 5, 8, 10, 13, 15, 22, 23, 30, 33, 39, 45, 47, 53, 60, 72, 76, 82, 84, 90, 95}
 L2 == <<
@@ -43,12 +44,13 @@ L2 == <<
     "\\*", "\\\\", "\\a", "\n", "  \n", "\\\n", "~", "~~",
     "~~j~~", "\"", "'", "--", "...", "(c)", "!", "#",
     "|", ":", "http://x.y", "{u+00e9}", "{u+200b}", "{u+00a0}", "{u+1f600}", "+-",
-    "'s", "\"q\"", "1", "<!-- c -->", "<?p?>", "&#0;", "&#xD800;", "![a *b*](/s 't')"
+    "'s", "\"q\"", "1", "<!-- c -->", "<?p?>", "&#0;", "&#xD800;", "![a *b*](/s 't')",
+    "(tM)", "(Tm)", "(C)", "(R)", "\\!!!!", "\\?", ",,", "\\,,"
 >>
 L1Mid == {1, 4, 5, 7, 8, 9, 10, 11, 12, 13, 14, 15, 16, 22, 23, 24, 26, 27, 29, 30, 31, 33, 34, 39, 40, 45, 46, 47, 48, 53, 55, 56, 60, 61, 72, 73, 74, 76, 77, 82, 83, 84, 85, 90, 91, 92, 93, 94, 95, 96, 97, 98, 99}
 L2Core == {1, 2, 3, 6, 11, 15, 23, 26, 33, 44, 48, 50}
 L2Mid == {1, 2, 3, 4, 6, 8, 11, 13, 15, 16, 17, 18, 19, 22, 23, 24, 26, 27, 29, 30, 33, 35, 36, 40, 41, 44, 45, 48, 50, 51, 52, 57}
-L2All == 1..72
+L2All == 1..80
 L0 == <<
     "a", "{u+00a0}", " ", "\t", "\n", ">", "-", "*", "_", "#", "`", "~",
     "[", "]", "(", ")", "\\", "&", ";", "<", "!", "|", "\"", "'",
@@ -98,7 +100,8 @@ LQ == <<
     "![i'\"](/s)", "_", "1", ".", "-", "(r)", "\\.\\.", "?!?!", "'\"'",
     "<a--b@x--y.zz>", "<u..v+-w@e.fr>", "<p????!!!!@e.fr>", "<irc:a--b...(c)>",
     "<http://x.y/'a'>", "<a'b@e.fr>", "<http://x.y/\"q\">",
-    "(&#99;)", "(t&#109;)", "(&#x52;)", "&#45;&#45;", ".&#46;.", "+&#45;", "&#34;a&#34;"
+    "(&#99;)", "(t&#109;)", "(&#x52;)", "&#45;&#45;", ".&#46;.", "+&#45;", "&#34;a&#34;",
+    "(tM)", "(Tm)", "\\!!!!", "\\!\\!\\!\\!", "!!!", "\\?", "\\,,", "\\+-", "\\-\\-"
 >>
 LQCore == 1..39
 (* byte-level fragments for the command-line entry point: "{x+HH}" is the byte HH *)
